@@ -140,6 +140,9 @@ func elemField(v ssa.Value) (string, ssa.Value) {
 		if ia, ok := b.X.(*ssa.IndexAddr); ok {
 			return f, ia.Index
 		}
+	case *ssa.Parameter:
+		// comparator over two element pointers: func(a, b *T) bool
+		return f, b
 	}
 	return "", nil
 }
@@ -350,13 +353,18 @@ func checkC03(p *Program, r *Result) {
 		if !onChunks || len(args) < 2 {
 			continue
 		}
-		order := orderConstOf(ci)
-		f, op, why := lessShape(closureOf(args[1]))
-		if why != "" {
-			r.violated("C03.c", funcName(ps), fmt.Sprintf("chunk-index sort (order %d)", order), p.pos(ci.Pos()), why)
-			continue
+		for _, cs := range comparatorCases(ci) {
+			order := cs.order
+			f, op, why := lessShape(cs.fn)
+			if why != "" {
+				r.violated("C03.c", funcName(ps), fmt.Sprintf("chunk-index sort (order %d)", order), p.pos(ci.Pos()), why)
+				continue
+			}
+			if cs.swapped {
+				op = map[string]string{"<": ">", ">": "<"}[op]
+			}
+			sortKey[order] = [2]string{f, op}
 		}
-		sortKey[order] = [2]string{f, op}
 	}
 	trigger := map[int][2]string{}
 	var trigInstrs []ssa.Instruction
@@ -642,8 +650,9 @@ func checkReloopAfterLoadAs(p *Program, r *Result, ni *ssa.Function, rule string
 var _ = types.Typ
 
 type cmpCase struct {
-	order int
-	fn    *ssa.Function
+	order   int
+	fn      *ssa.Function
+	swapped bool // the sort's closure forwards (x[j], x[i]) to fn
 }
 
 // comparatorCases: the comparator function(s) a sort call can run with and the read order under which each is chosen.
@@ -662,11 +671,139 @@ func comparatorCases(ci ssa.CallInstruction) []cmpCase {
 				continue
 			}
 			pred := x.Block().Preds[i]
-			out = append(out, cmpCase{orderConstOf(pred.Instrs[len(pred.Instrs)-1]), closureOf(e)})
+			out = append(out, cmpCase{order: orderConstOf(pred.Instrs[len(pred.Instrs)-1]), fn: closureOf(e)})
 		}
 		return out
 	}
-	return []cmpCase{{orderConstOf(ci), closureOf(args[1])}}
+	if cs := factoryCases(closureOfValue(args[1])); len(cs) > 0 {
+		return cs
+	}
+	return []cmpCase{{order: orderConstOf(ci), fn: closureOf(args[1])}}
+}
+
+func closureOfValue(v ssa.Value) *ssa.MakeClosure {
+	mc, _ := v.(*ssa.MakeClosure)
+	return mc
+}
+
+// factoryCases: the comparator closure only forwards to a function value obtained from a factory that is given the read
+// order (less := chunkIndexLess(it.order); sort.Slice(x, func(i, j int) bool { return less(x[i], x[j]) })): one case per
+// closure the factory returns, with the order constant its parameter is compared with on that path.
+func factoryCases(mc *ssa.MakeClosure) []cmpCase {
+	if mc == nil {
+		return nil
+	}
+	c, _ := mc.Fn.(*ssa.Function)
+	if c == nil || c.Blocks == nil {
+		return nil
+	}
+	var fwd *ssa.Call
+	for _, in := range instrsOf(c) {
+		if ret, ok := in.(*ssa.Return); ok && len(ret.Results) == 1 {
+			call, ok := ret.Results[0].(*ssa.Call)
+			if !ok || call.Call.StaticCallee() != nil || call.Call.IsInvoke() || len(call.Call.Args) != 2 {
+				return nil
+			}
+			fwd = call
+		}
+	}
+	if fwd == nil {
+		return nil
+	}
+	// the called value: a captured variable
+	var bound ssa.Value
+	callee := fwd.Call.Value
+	if u, ok := callee.(*ssa.UnOp); ok {
+		callee = u.X
+	}
+	for i, fv := range c.FreeVars {
+		if ssa.Value(fv) == callee && i < len(mc.Bindings) {
+			bound = mc.Bindings[i]
+		}
+	}
+	if bound == nil {
+		return nil
+	}
+	var src ssa.Value = bound
+	if al, ok := bound.(*ssa.Alloc); ok {
+		for _, ref := range *al.Referrers() {
+			if st, ok := ref.(*ssa.Store); ok && st.Addr == ssa.Value(al) {
+				src = st.Val
+			}
+		}
+	}
+	fc, ok := src.(*ssa.Call)
+	if !ok {
+		return nil
+	}
+	g := fc.Call.StaticCallee()
+	if g == nil || g.Blocks == nil {
+		return nil
+	}
+	// which parameter of the factory receives it.order
+	pidx := -1
+	for i, a := range fc.Call.Args {
+		if loadOfField(a, "indexedMessageIterator", "order") {
+			pidx = i
+		}
+	}
+	if pidx < 0 || pidx >= len(g.Params) {
+		return nil
+	}
+	prm := g.Params[pidx]
+	// orientation of the forwarding call: less(x[i], x[j]) or less(x[j], x[i])
+	swapped := false
+	if _, i0 := elemOf(fwd.Call.Args[0]); i0 == ssa.Value(c.Params[1]) {
+		swapped = true
+	}
+	var out []cmpCase
+	for _, in := range instrsOf(g) {
+		ret, ok := in.(*ssa.Return)
+		if !ok || len(ret.Results) != 1 || isNilConst(ret.Results[0]) {
+			continue
+		}
+		inner := closureOf(ret.Results[0])
+		if inner == nil {
+			continue
+		}
+		out = append(out, cmpCase{order: paramConstOf(ret, prm), fn: inner, swapped: swapped})
+	}
+	return out
+}
+
+// elemOf: v = x[idx] (element value or element pointer) -> (x, idx)
+func elemOf(v ssa.Value) (ssa.Value, ssa.Value) {
+	v = stripConv(v)
+	if u, ok := v.(*ssa.UnOp); ok && u.Op == token.MUL {
+		if ia, ok := u.X.(*ssa.IndexAddr); ok {
+			return ia.X, ia.Index
+		}
+	}
+	if ia, ok := v.(*ssa.IndexAddr); ok {
+		return ia.X, ia.Index
+	}
+	return nil, nil
+}
+
+// paramConstOf: the constant K of the `prm == K` test whose true branch dominates in, or -1.
+func paramConstOf(in ssa.Instruction, prm ssa.Value) int {
+	for d := in.Block(); d != nil; d = d.Idom() {
+		for _, pred := range d.Preds {
+			iff, ok := pred.Instrs[len(pred.Instrs)-1].(*ssa.If)
+			if !ok || pred.Succs[0] != d || len(d.Preds) != 1 {
+				continue
+			}
+			if b, ok := iff.Cond.(*ssa.BinOp); ok && b.Op == token.EQL {
+				if c, ok := b.Y.(*ssa.Const); ok && stripConv(b.X) == prm && c.Value != nil {
+					return int(c.Int64())
+				}
+				if c, ok := b.X.(*ssa.Const); ok && stripConv(b.Y) == prm && c.Value != nil {
+					return int(c.Int64())
+				}
+			}
+		}
+	}
+	return -1
 }
 
 // nilGuarded: the call is dominated by the true branch of `v != nil` (or the false branch of `v == nil`).
